@@ -302,7 +302,8 @@ class Ctx:
         return self.tier == 'thorough'
 
     def scale(self, quick, thorough):
-        return thorough if self.thorough else quick
+        # the failing-input search after a broken proof/correspondence uses the thorough volumes
+        return thorough if (self.thorough or self.searching) else quick
 
     def count(self, key, n=1):
         self.dist[key] = self.dist.get(key, 0) + n
